@@ -1,0 +1,45 @@
+/* Verification hooks.  Everything in this file is compiled only with -DPREPROCESS_VERIF and is
+ * inert unless the harness links the pv_* symbols or sets PREPROCESS_VERIF_TRACE_FD.
+ *
+ *  - Semaphore hooks: when the harness defines pv_sem_init/pv_sem_wait/pv_sem_post (weak
+ *    references here), util::Semaphore delegates to them so that a controlled scheduler can
+ *    decide which thread runs.  In every normal binary the symbols are null and the calls are
+ *    skipped.
+ *  - PV_TRACE(kind, a, b): one line "kind a b\n" written with a single write(2) to the file
+ *    descriptor named by the environment variable PREPROCESS_VERIF_TRACE_FD; nothing if unset.
+ */
+#ifndef UTIL_VERIF_HOOKS_H
+#define UTIL_VERIF_HOOKS_H
+#ifdef PREPROCESS_VERIF
+
+#include <cstdio>
+#include <cstdlib>
+#include <unistd.h>
+
+extern "C" {
+int pv_sem_init(void *sem, unsigned int value) __attribute__((weak));
+int pv_sem_wait(void *sem) __attribute__((weak));
+int pv_sem_post(void *sem) __attribute__((weak));
+}
+
+namespace util {
+inline int VerifTraceFD() {
+  static const int fd = []() {
+    const char *e = std::getenv("PREPROCESS_VERIF_TRACE_FD");
+    return e ? std::atoi(e) : -1;
+  }();
+  return fd;
+}
+inline void VerifTrace(const char *kind, unsigned long long a, unsigned long long b) {
+  const int fd = VerifTraceFD();
+  if (fd < 0) return;
+  char buf[96];
+  int n = std::snprintf(buf, sizeof buf, "%s %llu %llu\n", kind, a, b);
+  if (n > 0) { ssize_t ignored = ::write(fd, buf, n); (void)ignored; }
+}
+} // namespace util
+
+#define PV_TRACE(kind, a, b) ::util::VerifTrace(kind, (unsigned long long)(a), (unsigned long long)(b))
+
+#endif // PREPROCESS_VERIF
+#endif // UTIL_VERIF_HOOKS_H
